@@ -14,7 +14,7 @@ NANFUNCS = 'exp exp2 expm1 log log10 log2 log1p sqrt cbrt sin cos tan asin acos 
 
 
 def units(tier):
-    return [Unit('hmath', 'wrappers.cpp', ['harness.c'], tv=[(h, []) for h in ('h_rounding', 'h_lround', 'h_frexp_ldexp', 'h_modf_logb', 'h_nextafter', 'h_fdim_minmax', 'h_nan_ladder', 'h_special_values', 'h_symmetry')], tv_iters=20000, inc=('C08',))]
+    return [Unit('hmath', 'wrappers.cpp', ['harness.c'], tv=[(h, []) for h in ('h_rounding', 'h_lround', 'h_frexp_ldexp', 'h_modf_logb', 'h_nextafter', 'h_fdim_minmax', 'h_nan_ladder', 'h_special_values', 'h_symmetry', 'h_sincos')], tv_iters=20000, inc=('C08',))]
 
 
 def obligations(tier):
@@ -26,6 +26,8 @@ def obligations(tier):
     for f in NANFUNCS:
         obs.append(Ob('annexf_nan/' + f, 'hmath', 'h_nan_one', defines=['FN=' + f, 'ODDFN=0'], unwind=40, timeout=300, bound='all NaN payloads'))
     if tier == 'thorough':
+        # equivalence of the sincos entry point with sin and cos (seed C09-m4): no verdict within 900 s on cadical in the quick budget, so thorough tier only
+        obs.append(Ob('sincos_equals_sin_cos', 'hmath', 'h_sincos', unwind=40, timeout=7200, backend='kissat', bound='all arguments'))
         obs.append(Ob('annexf_nan_binary', 'hmath', 'h_nan_ladder', unwind=40, timeout=3600, backend='cadical', bound='all NaN payloads, every function incl. atan2/hypot/pow'))
         for f, odd in (('sin', 1), ('cos', 0), ('tan', 1), ('atan', 1), ('sinh', 1), ('cosh', 0), ('tanh', 1), ('cbrt', 1)):
             obs.append(Ob('symmetry/' + f, 'hmath', 'h_sym_one', defines=['FN=' + f, 'ODDFN=%d' % odd], unwind=40, timeout=3600, backend='cadical', bound='all arguments'))
